@@ -483,6 +483,18 @@ fn sweep_cases(seed: u64, tier: &str, bins: &Binaries, scratch: Option<&str>) ->
                 out.push(Planned { case: c, stratum: "sweep-stdin-kinds" });
             }
         }
+        // stdin is a regular file of which a first part was consumed before the program started (`{ read x; grex -; } < file`)
+        for ch in ["stdin", "file-via-stdin"] {
+            let mut c = make_case(ch, &lines, &content, &busy, &mut rng, true);
+            let consumed = b"already consumed line\n";
+            let mut all = consumed.to_vec();
+            all.extend_from_slice(&c.stdin);
+            c.stdin = all;
+            c.stdin_kind = 1;
+            c.stdin_offset = consumed.len();
+            c.note = "sweep/e3 regular-file stdin at a non-zero offset".into();
+            out.push(Planned { case: c, stratum: "sweep-stdin-kinds" });
+        }
         for ch in ["file", "file-via-stdin", "probe"] {
             for name in ["cases.txt", "with space.txt", "-dash.txt"] {
                 if *name == *"-dash.txt" && ch != "file-via-stdin" {
